@@ -205,6 +205,45 @@ def check_tree(ctx, case, placements):
                                   {**info, "out": out, "finding_tags": ["F18"] if want_f18 is not None and got == want_f18 else []})
 
 
+SIB = '<sib k="v">x<in/></sib>'
+SIB_CANON = {"name": ["", "sib"], "attrs": [[["", "k"], "v"]], "content": ["x", {"name": ["", "in"], "attrs": [], "content": []}]}
+
+
+def check_siblings(ctx, case):
+    """Several elements captured by ONE wildcard field (a single-valued field wraps them in an anonymous generic
+    element, a list field holds them side by side): they come back as the same siblings in the same order."""
+    src, ref = case["src"], case["ref"]
+    if src["tail"].strip():
+        return
+    want = [ref_canon(ref), SIB_CANON]
+    want_f18 = [ref_canon(f18_image(src, ref)), SIB_CANON] if case["f18"] else None
+    inner = tree_text(src)
+    xctx = XmlContext()
+    for pname in ("single", "list", "mixed"):
+        cls = PLACEMENTS[pname]
+        for order in (0, 1):
+            text = "<R>" + (inner + SIB if order == 0 else SIB + inner) + "</R>"
+            exp = want if order == 0 else want[::-1]
+            exp18 = None if want_f18 is None else (want_f18 if order == 0 else want_f18[::-1])
+            for h in ("native", "lxml"):
+                ctx.case(("tree-siblings", inner, pname, order, h))
+                st, obj, _w = hb.parse(text, h, xctx, cls, "str", ParserConfig())
+                info = {"placement": pname, "handler": h, "text": text}
+                if st != "ok":
+                    ctx.violation(f"two elements for wildcard placement {pname} ({h}) failed: {type(obj).__name__}: {obj}", info)
+                    continue
+                try:
+                    out = rb.render(obj, xctx, "native")
+                    root = infoset.parse(out)
+                    got = [infoset.canon(c, strip_ws_between_children=False) for c in root["content"] if isinstance(c, dict)]
+                except Exception as ex:  # noqa: BLE001
+                    ctx.violation(f"serialising two captured elements ({pname}) failed: {type(ex).__name__}: {ex}", info)
+                    continue
+                if got != exp:
+                    ctx.violation(f"placement {pname} ({h}): two sibling elements came back as {got}, the source says {exp}",
+                                  {**info, "out": out, "finding_tags": ["F18"] if exp18 is not None and got == exp18 else []})
+
+
 def run(ctx):
     ctx.rule = (
         "TLC: ALL generic trees of depth <= 2 with <= MaxKids children over 3 names x 4 attribute sets x 3 texts x 3 tails "
@@ -231,8 +270,10 @@ def run(ctx):
     lim = ctx.pick(1200, 40000)
     if len(cases) > lim:
         cases = random.Random(ctx.seed).sample(cases, lim)
-    for c in cases:
+    for k, c in enumerate(cases):
         check_tree(ctx, c, list(PLACEMENTS))
+        if k % 6 == 0:
+            check_siblings(ctx, c)
     if cases:
         c = cases[len(cases) // 2]
         ctx.sample({"source_tree": c["src"], "as_text": tree_text(c["src"]), "reference": c["ref"]})
